@@ -133,7 +133,29 @@ def run(ctx):
     wakes = f.calls("fiber_manager_wake_from_mpmc_queue")
     lds = [l for l in f.loads_of(S, "counter") if not any(s.node is l.node for s in ops)]
     bad = None
-    if len(cas) != 1 or len(adds) != 1 or not wakes or not lds:
+    if not cas and len(adds) == 1 and wakes:
+        # the other sound protocol ("textbook"): one unconditional fetch-add; when the old value was negative a waiter has announced itself and
+        # the unit is its: the post then asks the waker for (at least) one fiber and the waker does not come back before it woke one
+        a = adds[0]
+        for v in range(-2, 3):
+            atom = atom_from([(lambda n: n is a.node, v)])
+            rw = reach(f, wakes, atom)
+            if (v < 0) != rw:
+                bad = bad or "old counter %d: wake reachable = %s" % (v, rw)
+            if v < 0 and reach(f, ["exit"], atom, start=a.node, barrier=nodeset(wakes)):
+                bad = bad or "old counter %d: post returns without handing the unit to the announced waiter" % v
+        if f.find_path("entry", "exit", barrier=nodeset([a.node])) is not None:
+            bad = bad or "a path returns without incrementing the counter"
+        if f.find_path(a.node, nodeset([a.node])) is not None:
+            bad = bad or "the counter can be incremented twice by one post"
+        if a.value.cv != 1 or not order_ge(a.order or "relaxed", "release"):
+            bad = bad or "fetch_add amount `%s`, order %s (needs 1, release or stronger)" % (a.value.text, a.order)
+        for wk in wakes:
+            ar = f.args(wk)
+            if not waiters_of(f, ar[1]) or ar[2].cv is None or ar[2].cv < 1:
+                bad = bad or "wake arguments `%s` (the hand-over needs a blocking wake: count >= 1 on this semaphore's waiters)" % wk.text
+        o.check(bad is None, "fetch-add then blocking hand-over; table -2..2", bad, site=a.node, construct="post")
+    elif len(cas) != 1 or len(adds) != 1 or not wakes or not lds:
         o.fail("expected one CAS, one fetch_add, a wake call and a counter load", site=f.loc, construct="post shape")
     else:
         c, a = cas[0], adds[0]
@@ -224,9 +246,14 @@ def run(ctx):
         at = atom_from([(ispop, 0), (is_var_load(ov[0]), 0), (is_var_load(wc[0]), 0), (is_param_load(wq, "count"), 0)])
         if reach(wq, pops, at, start=pops[0]):
             bad = "count=0: a failed pop is retried (post would spin inside the waker)"
-        at = atom_from([(ispop, 0), (is_var_load(ov[0]), 0), (is_var_load(wc[0]), 0), (is_param_load(wq, "count"), 1)])
-        if reach(wq, ["exit"], at, start=pops[0], barrier=nodeset(pops)):
-            bad = bad or "count=1: returns without having woken anybody"
+        # the count > 0 contract ("retry until done") matters only if some caller asks for it
+        passed = [wq_c.args(cc)[2].cv for wq_c, cc in P.callers_of("fiber_manager_wake_from_mpmc_queue")] if False else \
+                 [g_.args(cc)[2].cv for g_, cc in P.callers_of("fiber_manager_wake_from_mpmc_queue")]
+        ctx.derived["mpmc_wake_counts_passed"] = sorted({("?" if v is None else v) for v in passed}, key=str)
+        if any(v is None or v > 0 for v in passed):
+            at = atom_from([(ispop, 0), (is_var_load(ov[0]), 0), (is_var_load(wc[0]), 0), (is_param_load(wq, "count"), 1)])
+            if reach(wq, ["exit"], at, start=pops[0], barrier=nodeset(pops)):
+                bad = bad or "count=1 (requested by a caller): returns without having woken anybody"
         for r in wq.returns():
             v = strip(r.kids[0])
             if not (v.k == "DeclRefExpr" and v.did == wc[0]):
